@@ -1039,6 +1039,18 @@ if __name__ == '__main__':
             'the same" (clamp_far, *_inf); that IEEE ±inf on finite data acts as the absent max / min / '
             'comparison is not a Lean theorem (Float is opaque) — it is what the bit-exact correspondence run '
             'exercises for every bound-taking op kind (coverage.infinite_bound_ops_per_kind, enforced non-zero)',
+            'monitors restate the property from the problem data in exact rationals: (i) the unique minimiser by an '
+            'independent argmin over the finitely many candidate points (bounds, kink, stationary points) comparing '
+            'exact function values, (ii) the optimality condition 0 ∈ ∂h(x̂) + (x̂ − v)/γ evaluated at the RETURNED '
+            'point (componentwise subdifferential / normal-cone membership; a point within the rounding of '
+            '(bound − x) + x of a bound counts as at the bound), (iii) for the inactive set the definition itself: '
+            'exact perturbation of the forward point below half the distance to the nearest breakpoint; sets::project / '
+            'prox(Box) are held to EXACT membership and the exact nearest point, x̂ = x + p forms to 2 ulp of '
+            'max(|x|, |x̂|) (counted when they leave the box by rounding); h and p are checked for every op kind',
+            'the generic default of the prox_step customisation point (prox.hpp) is translated (two assignments, the '
+            'call and the return pinned) and executed for L1Norm (scalar / vector), L1NormComplex (both), NuclearNorm '
+            'with γ ≠ 1, γ_fwd ≠ ±γ (`gps` ops; a static_assert in the harness shows the default is what runs); Box has '
+            'its own overload (`pstep`, now with γ ≠ 1)',
             'Eigen::BDCSVD is an oracle: the model takes σ, U, V as logged from the real run; that U·diag(s)·Vᵀ '
             'is the matrix prox (SVD contract + von Neumann trace inequality) is NOT proved '
             '(nuclear_prox_partial) — the monitor checks it against an independent pure-Python one-sided '
@@ -1059,7 +1071,9 @@ if __name__ == '__main__':
                      'inside Eigen 3.4.0 and is not generated)',
                      'nuclear-norm theorems: σ sorted non-increasing (BDCSVD contract, re-checked by the monitor '
                      'on every run)'],
-        rule='seeded random op lines over {pgs, inact, pmult, proj, pstep, l1s, l1v, unc, cl1s, cl1v, nuc}: '
+        rule='seeded random op lines over {pgs, inact, pmult, proj, pstep, l1s, l1v, unc, cl1s, cl1v, nuc, gps '
+             '(generic prox_step default × {l1s, l1v, cl1s, cl1v, nuc})}; required coverage (fails the run): every op '
+             'kind, gps with γ ≠ 1 and |γ_fwd| ≠ γ, ±inf bounds per bound-taking kind: '
              'n∈{0..6}, 40% exact-regime dyadic inputs with ties placed on thresholds, infinite / equal '
              'bounds, λ=0 entries; cl1*: 0..4 complex numbers as (re, im) pairs, Pythagorean triples scaled so '
              'that |z| = γλ exactly / just off, zero parts, empty weight vector, both overloads; nuc: both '
